@@ -620,6 +620,15 @@ def contains(eng, cont, x, st, fr, k):
         ek = cont.kind[5:]
         eqj = eng.equal(st, x, from_sort(ek, z3.Select(el, j)))
         return k(st, z3.Exists([j], z3.And(0 <= j, j < n, eqj)))
+    if isinstance(cont, SDyn):
+        # a dynamic container (e.g. a tuple of field names held in an untyped attribute): it must be a tuple / list object;
+        # membership is element-wise == over its items
+        ids = [eng.class_ids[c] for c in ("tuple", "list") if c in eng.class_ids]
+        ok = z3.And(PyVal.is_RefV(cont.t), z3.Or([eng.cls_term(st, PyVal.rval(cont.t)) == i for i in ids]))
+        if not st.spec:
+            eng.oblige(st, "type", "in-container-sequence", ok, "`in` on a dynamic value that is not known to be a tuple or list")
+            st.assume(ok)
+        return contains(eng, SRef(PyVal.rval(cont.t), "list:any"), x, st, fr, k)
     raise EngineError(f"`in` on {cont!r}")
 
 
@@ -1259,6 +1268,11 @@ def _isstr(eng, e, st, fr, k):
     return eng.ev(e.args[0], st, fr, lambda s, v: k(s, SBool(PyVal.is_StrV(v.t) if isinstance(v, SDyn) else z3.BoolVal(isinstance(v, SStr)))))
 
 
+def _isref(eng, e, st, fr, k):
+    """isref(x): the dynamic value x is an object reference"""
+    return eng.ev(e.args[0], st, fr, lambda s, v: k(s, SBool(PyVal.is_RefV(v.t) if isinstance(v, SDyn) else z3.BoolVal(isinstance(v, (SRef,))))))
+
+
 def _sval(eng, e, st, fr, k):
     return eng.ev(e.args[0], st, fr, lambda s, v: k(s, SStr(PyVal.sval(v.t)) if isinstance(v, SDyn) else v))
 
@@ -1410,7 +1424,7 @@ def _modconst(eng, e, st, fr, k):
 
 SPECIAL_FORMS = {"dict_wf": _dict_wf, "dict_pos": _dict_pos, "was": _was, "ghostfn": _ghostfn, "ghost_str": _ghost_str, "ghost": _ghost, "ref_id": _ref_id, "same_class": _same_class, "existed": _existed, "content_unchanged": _content_unchanged, "modconst": _modconst, "nlines": _nlines, "joined": _joined, "truthy": _truthy, "isint": _isint, "isnone": _isnone,
                  "dict_key_at": _dict_key_at, "str_of": _str_of, "forall": _quant("forall"), "exists": _quant("exists"), "implies": _implies, "old": _old,
-                 "fresh": _fresh, "allocated": _allocated, "unchanged": _unchanged, "isstr": _isstr,
+                 "fresh": _fresh, "allocated": _allocated, "unchanged": _unchanged, "isstr": _isstr, "isref": _isref,
                  "sval": _sval, "ival": _ival, "cls_is": _cls_is, "same": _same_obj, "as_ref": _as_ref}
 SPECIAL_ALWAYS = set()
 SPEC_FUNCS = set()
